@@ -4,6 +4,8 @@ use super::{
 };
 use crate::error::Result;
 use nervusdb_api::{ExternalId, GraphSnapshot, InternalNodeId};
+#[cfg(nervusdb_verif)]
+use super::verif_clock as chrono;
 
 #[derive(Clone)]
 pub(super) struct ExecMergeOverlayNode {
